@@ -276,9 +276,9 @@ func legalText(b []byte, ascii bool) []byte {
 	return []byte(strings.Join(out, "\r\n"))
 }
 
-var c10Names = []string{"", "Alice Example", "Jörg Müller", "日本 太郎", "Name, With Comma", "quote \" inside", "Doe,  Jane", "Two  Blanks", "Ünï cödé long display name that needs more than one encoded word to be represented"}
+var c10Names = []string{"", "Alice Example", "Jörg Müller", "日本 太郎", "Name, With Comma", "quote \" inside", "Doe,  Jane", "Two  Blanks", "100% Name", "%s %d", "Ünï cödé long display name that needs more than one encoded word to be represented"}
 var c10FileNames = []string{"file.txt", "report 2024.pdf", "übung.txt", "日本語のファイル.bin", "semi;colon.txt", "equals=sign.dat", "a b;c=d.txt", "noext", "ключ.key", "Annual%20Report%202024.pdf", "progress 100%.pdf", "very long file name with many words that goes on and on to force several encoded words in the header.txt"}
-var c10Subjects = []string{"plain subject", "Invoice 0815  -  May", "Total:\t42 EUR", "three   blanks and a long tail that is long enough to be folded over several lines   because it has many words in it", "Grüße aus Köln", "日本語の件名", "emoji \U0001F600 subject", "a subject that is long enough to be folded over several lines because it has many many many words in it", "mixed ascii and ünïcödé words in one line that is quite long and will need folding and several encoded words", "x"}
+var c10Subjects = []string{"plain subject", "100% done: %s %d %v %!x(MISSING)", "Invoice 0815  -  May", "Total:\t42 EUR", "three   blanks and a long tail that is long enough to be folded over several lines   because it has many words in it", "Grüße aus Köln", "日本語の件名", "emoji \U0001F600 subject", "a subject that is long enough to be folded over several lines because it has many many many words in it", "mixed ascii and ünïcödé words in one line that is quite long and will need folding and several encoded words", "x"}
 
 // c10ws: "the same subject" allows for nothing but white space at the two ends of the value.
 func c10ws(s string) string { return strings.Trim(s, " \t") }
